@@ -24,7 +24,7 @@ from elementpath.namespaces import XSD_ANY_TYPE, XSD_ANY_SIMPLE_TYPE, XSD_ANY_AT
 from elementpath.namespaces import XSD_NAMESPACE, XPATH_MATH_FUNCTIONS_NAMESPACE
 from elementpath.datatypes import AnyAtomicType, AbstractDateTime, AnyURI, \
     DayTimeDuration, Date, DateTime, DecimalProxy, Duration, Integer, QName, \
-    Timezone, UntypedAtomic, AbstractQName
+    Timezone, UntypedAtomic, AbstractQName, NumericProxy
 from elementpath.tdop import Token, MultiLabel
 from elementpath.helpers import ordinal, get_double
 from elementpath.xpath_context import XPathContext, XPathSchemaContext
@@ -548,7 +548,14 @@ class XPathToken(Token[ta.XPathTokenType]):
                 yield from product(map(float, left_values), map(float, right_values))
                 return
             elif self.parser.version == '1.0':
-                yield from product(left_values, right_values)
+                # XPath 1.0: if one operand is a number the other one is converted to a number
+                for op1, op2 in product(left_values, right_values):
+                    if isinstance(op1, NumericProxy) and isinstance(op2, str):
+                        yield op1, self.number_value(op2)
+                    elif isinstance(op2, NumericProxy) and isinstance(op1, str):
+                        yield self.number_value(op1), op2
+                    else:
+                        yield op1, op2
                 return
         else:
             left_values = self._items[0].atomization(context)
